@@ -141,3 +141,32 @@ PROPS["C02"].update({
     "rule": "a case is (program with synthesised assertions, domain, configuration); non-trivial as for C01; evidence counters give the verdict x concrete-outcome table (verdict_safe_holds = SAFE verdicts whose assertion was reached)",
     "counter_floors": {"quick": {"verdict_safe_holds": 1000, "verdict_warning_fails": 500}},
 })
+
+ENGINES += [
+    {"name": "scalar", "path": "harness/h_scalar.cc", "serves_properties": ["C08", "C13"],
+     "kind_free_text": "small-scope exhaustive enumeration of scalar abstractions (intervals, congruences, interval-congruences, signs, constants, disjunctive intervals, booleans, wrapped intervals) with all members checked against concrete operators written in the harness"},
+]
+
+PROPS["C08"] = {
+    "technique": "small-scope exhaustive runtime check: every pair of enumerated abstract scalars x every operator x every member is compared with concrete operators written in the harness (ASan+UBSan build)",
+    "level_text": "all integer intervals with bounds in [-6,6] and infinities (pairwise), all congruences aZ+b with a<=6, interval-congruence pairs, all signs, constants, three-valued booleans, disjunctive intervals of up to 3 pieces, sampled rational intervals: for each pair and each operator every member pair is executed concretely and must lie in the abstract result; join/meet/widening/narrowing against union/intersection; tightness of + - * neg join meet on integer intervals against the exact hull. Exhaustive within the stated scope.",
+    "level_note": "scope: bounds in [-6,6] (thorough: [-10,10]) plus a few large probes; unsigned operators on negative operands and shifts by negative amounts are out of model; membership uses the abstraction's own containment API",
+    "rule": "a case is one first operand (abstract scalar); inside the case every second operand, operator and member is enumerated; non-trivial = the first operand has at least one member among the probes; distinct = hash of type + printed operand",
+    "abort_is_violation": True,
+    "jobs": {
+        "quick": [{"name": e, "bin": "scalar", "engine": e, "cases": "all", "params": {"R": 6}, "min_shard": 1, "shards": 16} for e in ["zint", "ztight", "cong", "ric", "sign", "const", "disint", "bool"]]
+                 + [{"name": "qint", "bin": "scalar", "engine": "qint", "cases": 20000}],
+        "thorough": [{"name": e, "bin": "scalar", "engine": e, "cases": "all", "params": {"R": 10}, "min_shard": 1, "shards": 64} for e in ["zint", "ztight", "cong", "ric", "sign", "const", "disint", "bool"]]
+                    + [{"name": "qint", "bin": "scalar", "engine": "qint", "cases": 600000}],
+    },
+    "floor": {"quick": 500, "thorough": 1500},
+    "counter_floors": {"quick": {"membership_tests": 5000000}},
+    "exhaustive": {"quick": True, "thorough": True},
+    "assumptions": ["concrete operator semantics are those of DESIGN 3.4 (truncating division, floor shifts, infinite two's complement)"],
+}
+
+PROPS["C13"]["jobs"]["quick"].append({"name": "wint", "bin": "scalar", "engine": "wint", "cases": "all", "params": {"W": 3}, "min_shard": 1, "shards": 32})
+PROPS["C13"]["jobs"]["thorough"].append({"name": "wint", "bin": "scalar", "engine": "wint", "cases": "all", "params": {"W": 5}, "min_shard": 1, "shards": 128})
+PROPS["C13"]["technique"] += "; wrapped intervals: exhaustive enumeration of all (start,end) pairs, operators and members for small widths against uint64 arithmetic in the harness"
+PROPS["C13"]["level_text"] += " Wrapped intervals: every (start,end) pair, top and bottom at widths 1..3 (thorough: 1..5) x every operator x every member of both operands; Trunc/ZExt/SExt/negation likewise."
+PROPS["C13"]["rule"] += "; wint: a case is one first wrapped interval (all second operands, operators and members enumerated inside)"
